@@ -202,7 +202,7 @@ def gen_marker(rng, cfg, budget=None):
         return gen_atom(rng, cfg)
     kind = "and" if rng.random() < 0.5 else "or"
     other = "or" if kind == "and" else "and"
-    n_children = min(rng.choice([2, 2, 2, 3] if budget < 8 else [2, 3, 3, 4]), budget)
+    n_children = min(rng.choice([2, 2, 2, 3] if budget < 8 else ([2, 3, 3, 4] if budget < 10 else [3, 4, 4, 5])), budget)
     children = []
     left = budget
     for i in range(n_children):
@@ -401,9 +401,11 @@ def gen_config(rng, fault_class=None):
     roll = rng.random()
     marathon = roll < 0.01
     saturation = 0.01 <= roll < 0.025
+    heavy = 0.025 <= roll < 0.04
     cfg = {
         "marathon": marathon,
         "saturation": saturation,
+        "heavy": heavy,
         "max_probes": 160 if saturation else 40,
         "flavour": flavour,
         "kind_weights": kind_weights,
@@ -445,6 +447,16 @@ def gen_config(rng, fault_class=None):
         "shims": rng.random() < 0.5,
         "style": {"q": rng.choice(['"', '"', "'"]), "sp": rng.random() < 0.15, "par": rng.random() < 0.2},
     }
+    if heavy:
+        # lock-file sized markers: a dozen atoms in four or five alternatives, few operations; this is
+        # where the normalisation cascades get deep enough for budgets, guards and recursion limits
+        cfg["max_atoms"] = rng.choice([10, 12, 14])
+        cfg["p_single"] = 0.1
+        cfg["p_nest"] = 0.5
+        cfg["ops_per_client"] = rng.choice([4, 5, 6])
+        cfg["n_victims"] = 1
+        cfg["n_aggressors"] = 1
+        cfg["battery"] = rng.choice([0, 3])
     if marathon:
         # a long-running process: hundreds of operations over a somewhat wider literal pool, so that
         # size thresholds, evictions and table rebuilds of any memo are reached
